@@ -96,7 +96,10 @@ func Load(repo string, patterns []string) (*World, error) {
 		}
 		w.FnByKey[fn.String()] = fn
 	}
-	for k := range w.Contracts {
+	for k, ct := range w.Contracts {
+		if ct.Lemma {
+			continue
+		}
 		if _, ok := w.FnByKey[k]; !ok {
 			errs = append(errs, fmt.Sprintf("contract for unknown function %s", k))
 		}
